@@ -6,8 +6,9 @@ import random
 import struct
 from typing import Any, Dict, Iterator, List, Optional
 
-from core import Case, Prop, SelfCheckFailure
+from core import Case, Prop, SelfCheckFailure, pack_stable, ISOLATION
 from gen import hx, unhx, pool, rbytes
+from props.c05 import shared_conf, conf_untouched, contrast_conf, decoded_alone
 
 from spacepackets.cfdp.conf import PduConfig
 from spacepackets.cfdp.defs import (
@@ -103,13 +104,16 @@ def _nak_fields(p: NakPdu):
     return f
 
 
-def _check_packed(p, cls, fields, raw: bytes):
-    """the clauses of C06 that are visible on the real code alone"""
+def _check_packed(p, cls, fields, raw: Optional[bytes] = None):
+    """the clauses of C06 that are visible on the real code alone (the octets come from pack_stable: packed twice,
+    the buffer returned by the first call scribbled over in between)"""
     f = fields(p)
+    stable = pack_stable(p, f"{cls.__name__}.pack()")
+    if raw is not None and stable != raw:
+        raise SelfCheckFailure("pack() twice gives different octets")
+    raw = stable
     if len(raw) != f["packet_len"]:
         raise SelfCheckFailure(f"len(pack())={len(raw)} != packet_len={f['packet_len']}")
-    if bytes(p.pack()) != raw:
-        raise SelfCheckFailure("pack() twice gives different octets")
     hl = f["header_len"]
     if (raw[1] << 8 | raw[2]) != len(raw) - hl:
         raise SelfCheckFailure(f"data-field length in the octets {raw[1] << 8 | raw[2]} != octets after the header {len(raw) - hl}")
@@ -133,12 +137,44 @@ def _repack(p) -> Optional[str]:
         return None
 
 
+_DIGESTS: Dict[Any, Any] = {}
+
+
+def _digest(fields):
+    """a cheap but complete view of a decoded PDU for the isolation probes: the octets it re-packs to (every parameter
+    and every configuration field is in there) and its lengths; the full field view when it cannot be packed"""
+    if fields not in _DIGESTS:
+        def view(p):
+            r = _repack(p)
+            return fields(p) if r is None else {"raw": r, "packet_len": int(p.packet_len), "header_len": int(p.header_len)}
+        _DIGESTS[fields] = view
+    return _DIGESTS[fields]
+
+
+def _isolated(p, fields, f):
+    """the objects decoded by the previous calls are looked at again (decoding this input must not have changed
+    them), and this one is looked at again after another header was decoded"""
+    name = type(p).__name__
+    d = ISOLATION.check("C06:" + name, p, _digest(fields))
+    decoded_alone(p, _digest(fields), f, name + ".unpack", before=d)
+
+
 def _decoded(p, fields, raw: bytes):
     f = fields(p)
+    _isolated(p, fields, f)
     if f["packet_len"] > len(raw):
         raise SelfCheckFailure("decoded PDU is longer than the buffer it was decoded from")
     f["raw"] = _repack(p)
     return f
+
+
+def _built(build, a, what: str, use):
+    """`use(build(a, conf))` with the PduConfig instance a program would hold for these configuration parameters
+    (shared between cases, see props/c05.py); constructing and packing must leave it as it was (C11 clause)"""
+    conf = shared_conf(a)
+    out = use(build(a, conf))
+    conf_untouched(conf, a, what)
+    return out
 
 
 def _pack_fails(p) -> Dict[str, Any]:
@@ -160,19 +196,22 @@ def _enum(en, v: int):
 
 
 # ---- base ----
-def _fd(a) -> FileDirectivePduBase:
-    return FileDirectivePduBase(pdu_conf=_conf(a), directive_code=_enum(DirectiveType, a["code"]),
+def _fd(a, conf: Optional[PduConfig] = None) -> FileDirectivePduBase:
+    return FileDirectivePduBase(pdu_conf=_conf(a) if conf is None else conf, directive_code=_enum(DirectiveType, a["code"]),
                                 directive_param_field_len=a["plen"])
 
 
 def op_fdir_new(a):
-    return _fd_fields(_fd(a))
+    return _built(_fd, a, "FileDirectivePduBase(...)", _fd_fields)
 
 
 def op_fdir_pack(a):
-    fd = _fd(a)
+    return _built(_fd, a, "FileDirectivePduBase(...).pack()", _fdir_packed)
+
+
+def _fdir_packed(fd):
     f = _fd_fields(fd)
-    raw = bytes(fd.pack())
+    raw = pack_stable(fd, "FileDirectivePduBase.pack()")
     if len(raw) != f["dir_header_len"]:
         raise SelfCheckFailure("len(FileDirectivePduBase.pack()) != header_len")
     q = FileDirectivePduBase.unpack(raw)
@@ -186,6 +225,7 @@ def op_fdir_unpack(a):
     raw = unhx(a["raw"])
     fd = FileDirectivePduBase.unpack(raw)
     f = _fd_fields(fd)
+    _isolated(fd, _fd_fields, f)
     if f["dir_header_len"] > len(raw):
         raise SelfCheckFailure("decoded directive header is longer than the buffer")
     f["raw"] = _repack(fd)
@@ -202,32 +242,37 @@ def op_fdir_set(a):
 
 
 def op_fdir_parse_fss(a):
-    fd = _fd(a)
-    i, v = fd.parse_fss_field(raw_packet=unhx(a["raw"]), current_idx=a["idx"])
-    return {"idx": int(i), "val": int(v)}
+    def use(fd):
+        i, v = fd.parse_fss_field(raw_packet=unhx(a["raw"]), current_idx=a["idx"])
+        return {"idx": int(i), "val": int(v)}
+    return _built(_fd, a, "FileDirectivePduBase.parse_fss_field", use)
 
 
 def _eq_op(build):
     def op(a):
-        x, y = build(a["a"]), build(a["b"])
-        return {"eq": bool(x == y), "eq_rev": bool(y == x)}
+        # equal configuration parameters on both sides = the same PduConfig instance, as in a real program
+        ca, cb = shared_conf(a["a"]), shared_conf(a["b"])
+        x, y = build(a["a"], ca), build(a["b"], cb)
+        r = {"eq": bool(x == y), "eq_rev": bool(y == x)}
+        conf_untouched(ca, a["a"], "constructor / ==")
+        conf_untouched(cb, a["b"], "constructor / ==")
+        return r
     return op
 
 
 # ---- ACK ----
-def _ack(a) -> AckPdu:
-    return AckPdu(pdu_conf=_conf(a), directive_code_of_acked_pdu=_enum(DirectiveType, a["acked"]),
+def _ack(a, conf: Optional[PduConfig] = None) -> AckPdu:
+    return AckPdu(pdu_conf=_conf(a) if conf is None else conf, directive_code_of_acked_pdu=_enum(DirectiveType, a["acked"]),
                   condition_code_of_acked_pdu=_enum(ConditionCode, a["cond"]),
                   transaction_status=_enum(TransactionStatus, a["status"]))
 
 
 def op_ack_new(a):
-    return _ack_fields(_ack(a))
+    return _built(_ack, a, "AckPdu(...)", _ack_fields)
 
 
 def op_ack_pack(a):
-    p = _ack(a)
-    return _check_packed(p, AckPdu, _ack_fields, bytes(p.pack()))
+    return _built(_ack, a, "AckPdu(...).pack()", lambda p: _check_packed(p, AckPdu, _ack_fields))
 
 
 def op_ack_unpack(a):
@@ -236,15 +281,16 @@ def op_ack_unpack(a):
 
 
 # ---- Prompt ----
-def _prompt(a) -> PromptPdu:
-    return PromptPdu(pdu_conf=_conf(a), response_required=_enum(ResponseRequired, a["resp"]))
+def _prompt(a, conf: Optional[PduConfig] = None) -> PromptPdu:
+    return PromptPdu(pdu_conf=_conf(a) if conf is None else conf, response_required=_enum(ResponseRequired, a["resp"]))
 
 
 def op_prompt_pack(a):
-    p = _prompt(a)
-    if int(p.directive_type) != DIR_CODES["prompt"]:
-        raise SelfCheckFailure("Prompt PDU constructed with another directive code")
-    return _check_packed(p, PromptPdu, _prompt_fields, bytes(p.pack()))
+    def use(p):
+        if int(p.directive_type) != DIR_CODES["prompt"]:
+            raise SelfCheckFailure("Prompt PDU constructed with another directive code")
+        return _check_packed(p, PromptPdu, _prompt_fields)
+    return _built(_prompt, a, "PromptPdu(...).pack()", use)
 
 
 def op_prompt_unpack(a):
@@ -253,17 +299,16 @@ def op_prompt_unpack(a):
 
 
 # ---- Keep Alive ----
-def _ka(a) -> KeepAlivePdu:
-    return KeepAlivePdu(pdu_conf=_conf(a), progress=a["progress"])
+def _ka(a, conf: Optional[PduConfig] = None) -> KeepAlivePdu:
+    return KeepAlivePdu(pdu_conf=_conf(a) if conf is None else conf, progress=a["progress"])
 
 
 def op_ka_pack(a):
-    p = _ka(a)
-    return _check_packed(p, KeepAlivePdu, _ka_fields, bytes(p.pack()))
+    return _built(_ka, a, "KeepAlivePdu(...).pack()", lambda p: _check_packed(p, KeepAlivePdu, _ka_fields))
 
 
 def op_ka_pack_fails(a):
-    r = _pack_fails(_ka(a))
+    r = _built(_ka, a, "KeepAlivePdu(...).pack()", _pack_fails)
     r.pop("_raw", None)
     return r
 
@@ -294,18 +339,17 @@ def _segs(v):
     return None if v is None else [(int(s[0]), int(s[1])) for s in v]
 
 
-def _nak(a) -> NakPdu:
-    return NakPdu(pdu_conf=_conf(a), start_of_scope=a["start"], end_of_scope=a["end"],
+def _nak(a, conf: Optional[PduConfig] = None) -> NakPdu:
+    return NakPdu(pdu_conf=_conf(a) if conf is None else conf, start_of_scope=a["start"], end_of_scope=a["end"],
                   segment_requests=_segs(a["segs"]))
 
 
 def op_nak_pack(a):
-    p = _nak(a)
-    return _check_packed(p, NakPdu, _nak_fields, bytes(p.pack()))
+    return _built(_nak, a, "NakPdu(...).pack()", lambda p: _check_packed(p, NakPdu, _nak_fields))
 
 
 def op_nak_pack_fails(a):
-    r = _pack_fails(_nak(a))
+    r = _built(_nak, a, "NakPdu(...).pack()", _pack_fails)
     r.pop("_raw", None)
     return r
 
@@ -598,6 +642,7 @@ class C06Fixed(Prop):
         yield from self.ka_cases(rng, thorough)
         yield from self.nak_cases(rng, thorough)
         yield from self.random_octets(rng, thorough)
+        yield from self.leak_cases(rng, thorough)
 
     # ---- base class ----
     def base_cases(self, rng, thorough):
@@ -937,6 +982,37 @@ class C06Fixed(Prop):
                 else:
                     y[key] = (y[key] + 1) % (vmax(y[key[:3] + "_w"]) + 1)
                 yield Case({"op": "nak_eq", "a": x, "b": y}, "valid", tag="eq-" + key)
+
+    # ---- state leaking between calls / objects ----
+    def leak_cases(self, rng, thorough):
+        """the ops keep the objects decoded by the previous calls and hand the same PduConfig instance to cases with
+        equal configuration parameters: one configuration through every constructor back to back, then the one that
+        differs in every field, then the first again; the same for the decoders (inputs from the independent encoder)"""
+        codes = sorted(DIR_CODES.values())
+        for i in range(600 if thorough else 30):
+            a = rand_conf(rng)
+            b = contrast_conf(a)
+            for c in (a, b, a):
+                ac, cond, st = rng.choice([4, 5]), rng.choice(COND_MEMBERS), rng.randint(0, 3)
+                yield Case({"op": "ack_pack", **c, "acked": ac, "cond": cond, "status": st}, "valid", tag="shared-config")
+                yield Case({"op": "prompt_pack", **c, "resp": rng.randint(0, 1)}, "valid", tag="shared-config")
+                yield Case({"op": "ka_pack", **c, "progress": fss_val(rng, c["large"])}, "valid", tag="shared-config")
+                yield Case({"op": "nak_pack", **c, "start": fss_val(rng, c["large"]), "end": fss_val(rng, c["large"]),
+                            "segs": rand_segs(rng, c["large"], i % 3)}, "valid", tag="shared-config")
+                yield Case({"op": "fdir_pack", **c, "code": rng.choice(codes), "plen": rng.randint(0, 300)}, "valid",
+                           tag="shared-config")
+                yield Case({"op": "ack_new", **c, "acked": 9 - ac, "cond": cond, "status": st}, "valid", tag="shared-config")
+            for c in (a, b, a):
+                ac = rng.choice([4, 5])
+                yield from dec_cases("ack_unpack", spec_ack(c, ac, rng.choice(COND_MEMBERS), rng.randint(0, 3)), rng, c,
+                                     "isolation-pair", False, False)
+                yield from dec_cases("prompt_unpack", spec_prompt(c, rng.randint(0, 1)), rng, c, "isolation-pair", False, False)
+                yield from dec_cases("ka_unpack", spec_ka(c, fss_val(rng, c["large"])), rng, c, "isolation-pair", False, False)
+                segs = rand_segs(rng, c["large"], 1 + i % 3)
+                yield from dec_cases("nak_unpack", spec_nak(c, fss_val(rng, c["large"]), fss_val(rng, c["large"]), segs),
+                                     rng, c, "isolation-pair", True, False)
+                raw = spec_hdr(c, rng.randint(1, 300), c["dir"]) + bytes([rng.choice(codes)])
+                yield Case({"op": "fdir_unpack", "raw": hx(raw + rbytes(rng, rng.choice([0, 2])))}, "valid", tag="isolation-pair")
 
     # ---- malformed stream shared by the four decoders ----
     def random_octets(self, rng, thorough):
